@@ -31,6 +31,8 @@ type st struct {
 }
 
 type sim struct {
+	hintW *st    // C38: a state that just had part of a prefix cleared under a limit ...
+	hintP []byte // ... and that prefix
 	k           *kernel.K
 	disk        *simdisk.Disk
 	tries       *state.Tries
@@ -382,6 +384,19 @@ func (s *sim) write() {
 	}
 	s.checkRoot(w)
 	s.checkOthers(w)
+	if s.hintW == w && !w.stored {
+		hp := s.hintP
+		s.hintW, s.hintP = nil, nil
+		if s.storeOne(w) {
+			cut := k.Choose(len(hp)+1, "page-prefix-cut")
+			px := hp[:len(hp)-cut]
+			if !zeroNib(px) || s.zeroNibble {
+				k.Probe("paged-right-after-a-limited-clear")
+				s.pageOf(w, px, false)
+			}
+		}
+	}
+	s.hintW, s.hintP = nil, nil
 }
 
 func (s *sim) op(w *st) {
@@ -477,6 +492,10 @@ func (s *sim) op(w *st) {
 		}
 		if int(limit) == n && n > 0 {
 			k.Probe("limit-hits-last-key")
+		}
+		if k.Prop == "C38" && del > 0 && !all && !zeroNib(p) && k.Bool(1, 2, "page-after-limited-clear") {
+			// a block that clears part of a map, then a listing of what is left of it and of its surroundings
+			s.hintW, s.hintP = w, append([]byte{}, p...)
 		}
 	case 10, 11: // child put
 		if m.Mixed {
@@ -797,7 +816,11 @@ func (s *sim) store() bool {
 	if len(lv) == 0 {
 		return false
 	}
-	w := lv[k.Choose(len(lv), "store-which")]
+	return s.storeOne(lv[k.Choose(len(lv), "store-which")])
+}
+
+func (s *sim) storeOne(w *st) bool {
+	k := s.k
 	root, err := w.tr.Hash()
 	if err != nil {
 		s.viol("C01", "root", "hash-failed", "Hash() failed: %v", err)
@@ -945,6 +968,12 @@ func (s *sim) page() {
 	if atBest {
 		x = s.best
 	}
+	s.pageOf(x, nil, atBest)
+}
+
+// pageOf pages state x; p == nil: a generated prefix.
+func (s *sim) pageOf(x *st, p []byte, atBest bool) {
+	k := s.k
 	m := x.model
 	root := x.root
 	if s.sm == nil {
@@ -954,7 +983,9 @@ func (s *sim) page() {
 		}}, nil, nil)
 	}
 	sm := s.sm
-	p := s.genPrefix()
+	if p == nil {
+		p = s.genPrefix()
+	}
 	if atBest {
 		if s.lastBestPx != nil && k.Bool(1, 2, "same-prefix-as-last-time") {
 			p = s.lastBestPx
